@@ -601,6 +601,18 @@ def c14_pull_refresh(ex, S, T):
     return out
 
 
+def c14_create_sub(ex, S, T):
+    """a new subscription's idle-expiry clock starts at creation with the configured expiration ttl (not the message retention)"""
+    out = []
+    if S.err is not None:
+        return out
+    for k, n in enumerate(new_rows(S, 'Subscription')):
+        out.append(('new-subscription-expires-ttl-after-creation[%d]' % k,
+                    Implies(n.exists, And(ex.eq(n.v['ttl'], S.args['ttl']), ex.eq(n.v['message_ttl'], S.args['message_ttl']),
+                                          Or(*[ex.eq(n.v['expires_at'], t + S.args['ttl']) for t in S.nows]) if S.nows else False))))
+    return out
+
+
 def c14_expire(ex, S, T):
     out = []
     a = S.args
